@@ -60,6 +60,7 @@ struct PRun {
   int thrownTag = -1;
   int generatorCallsAfterThrow = 0;
   bool anyFailure = false;
+  int work[kMaxStages];         // planned extra body length per stage (simulation points)
 };
 static PRun* gp;
 
@@ -90,7 +91,7 @@ static void enterStage(int stage, Item& it) {
     it.lastStage = stage;
   }
   sim_event(8, stage, it.id);
-  sim_work(1 + (int)(sim_step() % 3));
+  sim_work(1 + (int)(sim_step() % 3) + r.work[stage]);
   if (stage == r.throwStage && it.id == r.throwItem) {
     r.thrown = true;
     r.thrownTag = 1000 + it.id;
@@ -261,7 +262,7 @@ static void pipeHangKey(char* buf, size_t n) {
     snprintf(buf, n, "no-exception");
 }
 
-static void pipeProgram(int focus) {
+static void pipeProgram(int focus, bool handoff = false) {
   PRun r;
   memset(&r, 0, sizeof r);
   new (&r) PRun();
@@ -273,6 +274,23 @@ static void pipeProgram(int focus) {
   int shape = (int)pick(8);
   r.nItems = chance(1, 4) ? range(0, 3) : range(0, 40);
   planStages(shape);
+  for (int s = 0; s < r.nStages; ++s)
+    r.work[s] = chance(1, 3) ? range(0, 40) : 0;
+  if (handoff) {
+    // biased towards the stage hand-off protocol: few items, a slow unlimited transform in front of a
+    // narrow stage, so that the caller is already inside the stage-wait chain when the last items are
+    // handed from one stage's completion callback to the next stage's local queue
+    nThreads = range(2, 4);
+    static const int shapes[] = {1, 5, 3};
+    shape = oneOf(shapes);
+    planStages(shape);
+    r.nItems = range(2, 5);
+    int u = range(1, r.nStages - 2); // the unlimited stage
+    for (int s = 0; s < r.nStages; ++s) {
+      r.limit[s] = s == u ? (long)dispenso::kStageNoLimit : (chance(2, 3) ? 1 : 2);
+      r.work[s] = s == u ? range(0, 80) : range(0, 4);
+    }
+  }
   sim_note("pool", nThreads);
   sim_note("shape", shape);
   sim_note("items", r.nItems);
@@ -343,6 +361,9 @@ static void pipeProgram(int focus) {
 static void wlPipe27() {
   pipeProgram(27);
 }
+static void wlPipe27h() {
+  pipeProgram(27, true);
+}
 static void wlPipe28() {
   pipeProgram(28);
 }
@@ -353,5 +374,6 @@ static void wlPipe29() {
 } // namespace
 
 HX_WORKLOAD("C27", "pipeline", wlPipe27, SF_ALL, 6000000, 6000000, 1);
+HX_WORKLOAD("C27", "pipeline-handoff", wlPipe27h, SF_ALL, 6000000, 6000000, 3);
 HX_WORKLOAD("C28", "pipeline-limits", wlPipe28, SF_ALL, 6000000, 6000000, 1);
 HX_WORKLOAD("C29", "pipeline-throw", wlPipe29, SF_ALL, 6000000, 6000000, 1);
